@@ -289,7 +289,7 @@ func genAliasFamily(r vlib.Rnd, keyShortcuts bool) []byte {
 	default:
 		fmt.Fprintf(&sb, "  200\n    {\"p\": %s}\n", t())
 	}
-	if keyShortcuts && vlib.Chance(r, 1, 10) {
+	if keyShortcuts && vlib.Chance(r, 1, 40) {
 		// the alias as the type of the keys of an object (key shortcut).  Only for the isolated-worker check of C01: a
 		// self-referring mixed type in this position kills the process inside the schema library (open finding A2)
 		fmt.Fprintf(&sb, "  404\n    {\n      %s: 1\n    }\n", t())
